@@ -2319,6 +2319,12 @@ impl Zeroconf {
                     }
                 }
             }
+
+            // Trying to announce may have started new probes (e.g. for a record that
+            // has to follow the new name of a renamed one): wake up for them.
+            for timer in dns_registry.new_timers.drain(..) {
+                self.timers.push(Reverse(timer));
+            }
         }
 
         if !invalid_intf_addrs.is_empty() {
